@@ -28,6 +28,14 @@ class VirtualTimeLoop(asyncio.SelectorEventLoop):
     def time(self) -> float:
         return self._vt
 
+    def call_at(self, when, callback, *args, context=None):
+        # On a real loop the clock moves between two call_later() calls, so timers asked for the same
+        # delay one after the other fire in the order they were scheduled. Virtual time stands still
+        # between them: identical deadlines would be ordered by heapq's (unstable) tie handling. A
+        # sub-nanosecond increment per scheduled timer restores first-scheduled-first-fired.
+        self._tie = getattr(self, "_tie", 0) + 1
+        return super().call_at(when + self._tie * 1e-13, callback, *args, context=context)
+
     def _run_once(self):
         self.iterations += 1
         if self.max_iterations is not None and self.iterations > self.max_iterations:
